@@ -29,10 +29,11 @@ std::pair<bool, int> TetrisLegalizer::attemptPlacement(int cell, int y) const {
     // Incompatible due to row orientation
     return std::make_pair(false, 0);
   }
-  // Need to handle non-classical orientation
+  // The sizes are given for the target orientation: exchange them only if
+  // the new orientation is turned with respect to it
   int width = cellWidth_[cell];
   int height = cellHeight_[cell];
-  if (isTurn(orient)) {
+  if (isTurn(orient) != isTurn(cellTargetOrientation_[cell])) {
     std::swap(width, height);
   }
   auto p = getPossibleIntervals(width, height, y);
@@ -104,10 +105,12 @@ void TetrisLegalizer::placeCell(int cell) {
   cellToY_[cell] = bestY;
   cellToOrientation_[cell] = getOrientation(cell, closestRow(bestY));
   cellIsPlaced_[cell] = true;
-  // Need to handle non-classical orientation
+  // The sizes are given for the target orientation: exchange them only if
+  // the new orientation is turned with respect to it
   int width = cellWidth_[cell];
   int height = cellHeight_[cell];
-  if (isTurn(cellToOrientation_[cell])) {
+  if (isTurn(cellToOrientation_[cell]) !=
+      isTurn(cellTargetOrientation_[cell])) {
     std::swap(width, height);
   }
   instanciateCell(bestX, bestY, width, height);
